@@ -6,6 +6,7 @@ import (
 	"fmt"
 	"os"
 	"runtime/debug"
+	"runtime/pprof"
 	"strings"
 	"testing"
 	"testing/synctest"
@@ -62,6 +63,10 @@ func Run(t *testing.T, realTimeout time.Duration, onHang func(), f func()) (res 
 			}
 		}()
 		f()
+		if os.Getenv("VERIF_DUMP") != "" {
+			synctest.Wait()
+			_ = pprof.Lookup("goroutine").WriteTo(os.Stdout, 1)
+		}
 	})
 	return res
 }
